@@ -210,6 +210,16 @@ func runC09(seed int64, n int, dir string, tier string) *Report {
 			b = perturbed(g, a)
 			rep.Count("operands=perturbed-copy")
 		}
+		if i%6 == 4 {
+			// the same identifiers on both sides, every attribute drawn independently for each side: every
+			// combination of "set here, set there" for every pair of attributes
+			a = g.NodeList(gen.Shape{MaxNodes: 4, MaxEdges: 4, WellFormed: true, Richness: 0.5, Pool: gen.IDPool[:6]})
+			b = clone(a)
+			for k, nd := range b.Nodes {
+				b.Nodes[k] = g.Node(nd.Id, 0.5)
+			}
+			rep.Count("operands=same-identifiers-independent-attributes")
+		}
 		empty := &sbom.NodeList{}
 		wfcount := 0
 		for _, x := range []*sbom.NodeList{a, b, c} {
